@@ -146,6 +146,15 @@ impl Debugger {
         self.asm_source.orig()
     }
 
+    /// Verification hook: current breakpoint list as `(address, is_predefined)`.
+    #[cfg(feature = "verif")]
+    pub(super) fn verif_breakpoints(&self) -> Vec<(u16, bool)> {
+        self.breakpoints
+            .iter()
+            .map(|breakpoint| (breakpoint.address, breakpoint.is_predefined))
+            .collect()
+    }
+
     pub(super) fn increment_instruction_count(&mut self) {
         self.instruction_count += 1;
     }
@@ -323,6 +332,8 @@ impl Debugger {
             dprintln!(Sometimes, Error, "Type `help` for a list of commands.");
         })
         .unwrap_or(Command::Quit); // "quit" on EOF
+        #[cfg(feature = "verif")]
+        crate::verif::event(crate::verif::Event::Cmd);
 
         // Do not re-use `SignificantInstr` from caller
         // Must be recalculated as this method is called in a loop
